@@ -14,8 +14,10 @@ NOTE = ('Bounded: per-type depth by budget, reduced alphabet R1 (3 representativ
 CHECKS = {
     'C01': (MC, BFS + 'invariant: every successful to_string emits a word of the reference automaton',
             'All histories of add / forward add / remove / replace / xml_* set+unset / to_string(intelligent_choice on/off) '
-            'up to the per-type depth are executed on fresh real elements for all 94 types; every successful serialisation '
-            'is parsed and its child sequence must be accepted by the reference content-model automaton.', NOTE, '4 C01'),
+            'up to the per-type depth (four profiles incl. forward-focused and deep small-alphabet ones) are executed on fresh real '
+            'elements for all 94 types; every successful serialisation is parsed and its child sequence must be accepted by the '
+            'reference content-model automaton. Part 2: nested documents - every (parent type, element-content child) pair x all '
+            'histories of depth 2/3 on the checked nested child, both nodes judged.', NOTE, '4 C01'),
     'C02': (MC, 'model-driven: all traces of each content-model DFA up to a bound replayed on the real element',
             'Every accepted word (up to a per-type length bound), a transition cover and all pumped simple cycles of the '
             'reference DFA of each of the 94 content models are replayed against the real element; acceptance, final '
